@@ -12,6 +12,7 @@ import EaselModel.Miniapps.Afetch
 import EaselModel.Miniapps.AlistatInfo
 import EaselModel.Miniapps.Compstruct
 import EaselModel.Miniapps.StoTools
+import EaselModel.Miniapps.Compalign
 /-! # C13 — command-line front end of the reference functions: `runTool tool argv files` = predicted stdout -/
 namespace EaselModel.Miniapps
 
@@ -775,6 +776,13 @@ def runCompstruct (argv : List String) (files : String → Option (List Char)) :
   let [kf, tf] := p.pos | none
   Ali.compstruct (p.has "-m") (p.has "-p") (c2b (← files kf)) (c2b (← files tf))
 
+/-- esl-compalign [-c] [-p] (--dna|--rna|--amino) <trusted.sto> <test.sto>   (not --p-mask, not --c2dfile) -/
+def runCompalign (argv : List String) (files : String → Option (List Char)) : Option String := do
+  let p ← parseArgs ["-c", "-p", "--dna", "--rna", "--amino"] [] argv {}
+  let (_, fa, ta) ← abc3Of p
+  let [kf, tf] := p.pos | none
+  Ali.compalign fa ta (p.has "-c") (p.has "-p") (c2b (← files kf)) (c2b (← files tf))
+
 def runSfetch (argv : List String) (files : String → Option (List Char)) : Option String :=
   (runSfetchFull argv files).map (·.1)
 
@@ -794,6 +802,7 @@ def runToolCore (tool : String) (argv : List String) (files : String → Option 
   | "esl-weight" => runWeight argv files
   | "esl-alimanip" => runAlimanip argv files
   | "esl-compstruct" => runCompstruct argv files
+  | "esl-compalign" => runCompalign argv files
   | "easel" => runEasel argv files
   | _ => none
 
